@@ -15,6 +15,8 @@ import (
 	"encoding/binary"
 	"encoding/json"
 	"math/big"
+	"net/http"
+	"strings"
 	"time"
 
 	"github.com/Cloud-Foundations/keymaster/vf/vclock"
@@ -125,4 +127,52 @@ func (w *vfWorld) vfGiveU2F(user string, idx int64) *vfSoftToken {
 	p.UserHasRegistered2ndFactor = true
 	w.vfSaveProfile(user, p)
 	return t
+}
+
+// WebauthnAssertion makes the token answer a WebAuthn login challenge as a
+// fido-u2f credential (appid extension): the body of /webauthn/AuthFinish/.
+func (t *vfSoftToken) WebauthnAssertion(appID, challenge string) []byte {
+	cd, err := json.Marshal(map[string]string{"type": "webauthn.get", "challenge": challenge, "origin": appID})
+	vfMust(err)
+	t.Counter++
+	app := sha256.Sum256([]byte(appID))
+	ad := append([]byte{}, app[:]...)
+	ad = append(ad, 1) // user present
+	ctr := make([]byte, 4)
+	binary.BigEndian.PutUint32(ctr, t.Counter)
+	ad = append(ad, ctr...)
+	cdh := sha256.Sum256(cd)
+	h := sha256.Sum256(append(append([]byte{}, ad...), cdh[:]...))
+	sig, err := ecdsa.SignASN1(rand.Reader, t.key, h[:])
+	vfMust(err)
+	body, err := json.Marshal(map[string]interface{}{"id": vfB64u(t.KeyHandle), "rawId": vfB64u(t.KeyHandle), "type": "public-key",
+		"response": map[string]string{"authenticatorData": vfB64u(ad), "clientDataJSON": vfB64u(cd), "signature": vfB64u(sig)}})
+	vfMust(err)
+	return body
+}
+
+// vfWebauthnBegin asks for a WebAuthn login challenge and returns it the way a
+// browser puts it into the client data (unpadded base64url); "" if refused.
+func (w *vfWorld) vfWebauthnBegin(ck *http.Cookie) (string, int) {
+	r := w.Do(vfReq{Method: "GET", Path: webAuthnAuthBeginPath, Cookies: []*http.Cookie{ck}}.Build())
+	var opt struct {
+		PublicKey struct {
+			Challenge string `json:"challenge"`
+		} `json:"publicKey"`
+	}
+	if r.Code != 200 || json.Unmarshal(r.Body, &opt) != nil || opt.PublicKey.Challenge == "" {
+		return "", r.Code
+	}
+	c := opt.PublicKey.Challenge
+	raw, err := base64.StdEncoding.DecodeString(c)
+	if err != nil {
+		raw, err = base64.URLEncoding.DecodeString(c)
+	}
+	if err != nil {
+		raw, err = base64.RawURLEncoding.DecodeString(strings.TrimRight(c, "="))
+	}
+	if err != nil {
+		return "", r.Code
+	}
+	return base64.RawURLEncoding.EncodeToString(raw), r.Code
 }
